@@ -150,9 +150,46 @@ async def check_string(ctx, s: str, cls: str = "replay"):
         ctx.count("nontrivial_strings")
 
 
+async def check_package_failure_path(ctx, case):
+    """case: {"s": well-formed expression with a package, "bad": malformed package expression, "good": well-formed one}"""
+    s, bad, good = case["s"], case["bad"], case["good"]
+    ctx.set_case("package-failure-path", case)
+    ctx.count("package_failure_sequences")
+
+    async def resolve(table, resolve_packages=True):
+        world = E.World("c02", pkg=table)
+
+        async def go():
+            E.set_world(world)
+            return await parse_expression_including_unresolved_subexpressions(s, resolve_packages=resolve_packages)
+
+        return await sched.run_under(None, go)
+
+    key = case["key"]
+    first = await resolve({key: bad})
+    ctx.evaluation()
+    if first[0] == "ok" or not isinstance(first[1], SyntaxError):
+        ctx.violation("malformed-package-expression-not-rejected" if first[0] == "ok" else f"resolver-raises-{type(first[1]).__name__}", f"resolver({s!r}) with package {key} = {bad!r} (malformed) {describe(first)[:200]}; expected SyntaxError")
+        return
+    for what, out in (("with the repaired package table", await resolve({key: good})), ("without package resolution", await resolve({}, resolve_packages=False))):
+        ctx.evaluation()
+        if out[0] != "ok":
+            ctx.violation("resolver-rejects-wellformed", f"resolver({s!r}) {what} {describe(out)[:200]} - the string itself is well-formed; an earlier call failed because package {key} was {bad!r}")
+            return
+
+
 async def run(ctx):
     rng = ctx.rng
     E.install()
+    for i in range(ctx.budget(60, 3_000)):
+        key = rng.choice(["1P", "7P", "123P"])
+        inner = wellformed_condition(rng)
+        s = rng.choice(["Muss ", "X", "", "Kann[1]U", "([2]O"]) + f"[{key}]"
+        s += ")" if s.startswith("([2]O") else ""
+        bad = mutate(inner, rng, TOKEN_ALPHABET)
+        if S.cond_verdict(bad) != S.REJ:
+            bad = inner + "U"
+        await check_package_failure_path(ctx, {"s": s, "key": key, "bad": bad, "good": inner})
     if ctx.shard == 0:
         for s in FIXED:
             await check_string(ctx, s, "fixed")
@@ -165,4 +202,7 @@ async def run(ctx):
 
 async def replay(ctx, phase, case):
     E.install()
-    await check_string(ctx, case["s"], case.get("class", "replay"))
+    if phase == "package-failure-path":
+        await check_package_failure_path(ctx, case)
+    else:
+        await check_string(ctx, case["s"], case.get("class", "replay"))
